@@ -134,6 +134,25 @@ func newValue_Array(name string, kind ValueKind, typ *Array) *aArray {
 
 func (v *aArray) Type() ValueType { return v.typ }
 
+// Arrays compare element-wise through the synthetic underlying struct
+// (without these overrides the inherited aStruct methods compare the
+// underlying struct type with the array type and abort).
+func (v *aArray) emitEq(r Value) (insts []wat.Inst, ok bool) {
+	d, isArray := r.(*aArray)
+	if !isArray || !v.Type().Equal(r.Type()) {
+		logger.Fatal("v.Type() != r.Type()")
+	}
+	return v.aStruct.emitEq(&d.aStruct)
+}
+
+func (v *aArray) emitCompare(r Value) (insts []wat.Inst) {
+	d, isArray := r.(*aArray)
+	if !isArray || !v.Type().Equal(r.Type()) {
+		logger.Fatal("v.Type() != r.Type()")
+	}
+	return v.aStruct.emitCompare(&d.aStruct)
+}
+
 func (v *aArray) emitStoreToAddr(addr Value, offset int) (insts []wat.Inst) {
 	if !addr.Type().(*Ptr).Base.Equal(v.Type()) {
 		logger.Fatal("Type not match")
